@@ -5,9 +5,11 @@ import (
 	"encoding/hex"
 	"encoding/json"
 	"fmt"
+	"math/rand"
 	"strings"
 	"sync"
 	"testing"
+	"time"
 
 	"github.com/tikv/client-go/v2/oracle"
 	"github.com/tikv/client-go/v2/verifsim/simkit"
@@ -37,12 +39,21 @@ func (Engine) Generate(cfg simkit.RunConfig) (any, bool) {
 		return genWorkload(cfg, genOpts{maxTxns: 6, pessRate: 0.4, faults: true, topo: true, backend: "M"}), true
 	case "nofault":
 		return genWorkload(cfg, genOpts{maxTxns: 6, pessRate: 0.4, faults: false, topo: true, backend: "M"}), true
+	case "crash":
+		return genCrash(cfg, "M"), true
+	case "faults":
+		return genFaults(cfg, "M"), true
+	case "leftover":
+		return genLeftover(cfg, "M"), true
 	}
 	panic("unknown mode " + cfg.Mode)
 }
 
 // Prepare implements simkit.Preparer (outside the bubble).
-func (Engine) Prepare(cfg simkit.RunConfig, scenario any) { setKnobs(scenario.(*Scenario).Knobs) }
+func (Engine) Prepare(cfg simkit.RunConfig, scenario any) {
+	setKnobs(scenario.(*Scenario).Knobs)
+	rand.Seed(int64(cfg.Seed)) // back-off jitter etc. of the code under test (global math/rand)
+}
 
 // Cleanup implements simkit.Preparer.
 func (Engine) Cleanup(cfg simkit.RunConfig, scenario any) {}
@@ -54,6 +65,8 @@ func (Engine) Execute(t *testing.T, cfg simkit.RunConfig, scenario any) *simkit.
 	res := &simkit.RunResult{}
 	var w *World
 	janitorOK := false
+	drained := false
+	var leftover []string
 	s.Run(func() {
 		var err error
 		w, err = newWorld(s, sc)
@@ -72,13 +85,26 @@ func (Engine) Execute(t *testing.T, cfg simkit.RunConfig, scenario any) *simkit.
 			}()
 		}
 		wg.Wait()
+		if cfg.Mode == "leftover" {
+			// C06: let the clients' background work drain WITHOUT letting any lock expire
+			// (TTLs are 10 simulated minutes in this mode), then look at the store.
+			for i := 0; i < 20 && !drained; i++ {
+				s.Sleep(3 * time.Second)
+				drained = w.Net.Quiet(12 * time.Second)
+			}
+			if drained {
+				leftover = w.leftoverLocks()
+			}
+			return
+		}
 		// recovery: move simulated time past every lock TTL, then let a fresh client
 		// resolve whatever is left.
-		s.Sleep(ttlOf(sc) + 0)
+		s.Sleep(ttlOf(sc))
 		janitorOK = w.janitor(12)
 	})
 	truth := simkit.DumpTruth(w.dumper, w.allKeys)
 	trace := w.Net.Trace()
+	tso := w.TSO.Snapshot()
 	w.close()
 	simkit.Settle()
 	res.Aborted = s.Aborted
@@ -95,26 +121,52 @@ func (Engine) Execute(t *testing.T, cfg simkit.RunConfig, scenario any) *simkit.
 			done++
 		}
 	}
-	res.Nontrivial = done >= 2 && (faults > 0 || len(sc.Txns) >= 2)
+	planned := len(sc.Net.Plan)
+	res.Nontrivial = done >= 1 && (planned == 0 && (faults > 0 || len(sc.Txns) >= 2) || planned > 0 && len(w.Net.Fired) > 0)
 	res.Stats["runs.with-faults"] = b2i(faults > 0)
+	if planned > 0 && len(w.Net.Fired) == 0 {
+		res.Stats["runs.planned-fault-not-reached"] = 1
+	}
+	var vs []simkit.Violation
 	for _, p := range w.Net.Panics {
 		sig := firstWords(p, 4)
 		if strings.Contains(p, "KvScan") && strings.Contains(p, "reverse:true") && !strings.Contains(p, "start_key:") {
 			sig = "riter-unbounded-upper " + sig
 		}
-		res.Violations = append(res.Violations, simkit.Violation{Property: cfg.Property, Class: "backend-panic", Sig: sig, Detail: p})
+		vs = append(vs, simkit.Violation{Property: "C01", Class: "backend-panic", Sig: sig, Detail: p})
 	}
 	if s.Aborted == "" {
-		if !janitorOK {
-			res.Violations = append(res.Violations, simkit.Violation{Property: cfg.Property, Class: "recovery-stuck", Sig: "janitor", Detail: fmt.Sprintf("locks remain after recovery budget: %v", describeLocks(w))})
+		c := &checker{prop: cfg.Property, truth: truth, hist: w.Hist, trace: trace, mock: sc.Backend == "M" || sc.Backend == ""}
+		if cfg.Mode == "leftover" {
+			if !drained {
+				res.Stats["leftover.not-drained"] = 1
+			} else {
+				res.Stats["leftover.audited"] = 1
+				for _, l := range leftover {
+					vs = append(vs, simkit.Violation{Property: "C06", Class: "leftover-lock", Sig: firstWords(l, 2), Detail: l})
+				}
+			}
+		} else {
+			if !janitorOK {
+				vs = append(vs, simkit.Violation{Property: cfg.Property, Class: "recovery-stuck", Sig: "janitor", Detail: fmt.Sprintf("locks remain after the recovery budget (ttl + %d resolver rounds): %v", 12, describeLocks(w))})
+			}
+			c.checkC01()
+			c.checkC03()
+			vs = append(vs, c.out...)
 		}
-		c := &checker{prop: cfg.Property, truth: truth, hist: w.Hist, mock: sc.Backend == "M" || sc.Backend == ""}
-		c.checkC01()
-		res.Violations = append(res.Violations, filterProp(c.out, cfg.Property)...)
+		m := &monitor{trace: trace, tso: tso, hist: w.Hist}
+		m.run()
+		for k, n := range m.rules {
+			res.Stats["c04."+k] = n
+		}
+		vs = append(vs, m.out...)
 	}
+	res.Violations = filterProp(vs, cfg.Property)
 	if len(res.Violations) > 0 {
 		res.Log = append(res.Log, histLines(w.Hist)...)
-		res.Log = append(res.Log, res.Trace...)
+		for _, r := range trace {
+			res.Log = append(res.Log, fmtRec(r))
+		}
 	}
 	res.Sample = sampleOf(sc, w, res)
 	return res
@@ -127,11 +179,17 @@ func b2i(b bool) int {
 	return 0
 }
 
-// filterProp keeps the violations that belong to the property being checked
-// (C07 read-your-writes violations are found by the same oracle pass as C01).
+// filterProp keeps the violations that belong to the property being checked. The
+// snapshot-isolation / atomicity / acknowledgement rules are shared by C01, C02, C03
+// and C05 (same oracle, different fault spaces) and are reported under the
+// property whose check is running.
 func filterProp(vs []simkit.Violation, prop string) []simkit.Violation {
 	var out []simkit.Violation
+	shared := map[string]bool{"C01": true, "C02": true, "C03": true, "C05": true}
 	for _, v := range vs {
+		if v.Property == "C01" && shared[prop] {
+			v.Property = prop
+		}
 		if v.Property == prop || prop == "" {
 			out = append(out, v)
 		}
